@@ -13,10 +13,10 @@ storage orders), tied to /repo by `harness/h_rbm.cpp` (ops `rbm_modes`, `rbm_deg
   together: the output spans exactly the space of the raw modes;
 * `rbm_translation_cols`, `rbm_unit_norm`: the translation columns are returned as written, the rotation columns have
   unit norm (with a `sqrt` that is exact on sums of squares and non-zero divisors);
-* `rbm_translation_norm`, `rbm_not_orthonormal`: **the output is not orthonormal** although the code labels the loop
+* `rbm_translation_norm`, `rbm_first_rotation_gram`, `rbm_not_orthonormal`: **the output is not orthonormal** although the code labels the loop
   "Orthonormalization": `n = coo.size()` counts unknowns, not nodes, so a translation column has squared norm
   `1/ndim`, and the projection `B_i -= dot[k]·B_k` (correct only for unit `B_k`) leaves the rotation columns
-  non-orthogonal to the translations.  Harmless for C04 (only the span enters `P_tent·B_c = B`), reported as a
+  non-orthogonal to the translations: `⟨B_ndim, B_k⟩·s = (1 − 1/ndim)·⟨T_k, R⟩`.  Harmless for C04 (only the span enters `P_tent·B_c = B`), reported as a
   finding (notes/repro_rbm_not_orthonormal.cpp);
 * `rbm_depends_on_prior_content`: `B.resize` keeps the caller's old values, which leak into the result;
 * `rbm_ptent_zero_energy`: composition with `P_tent·B_c = B` — the rigid body modes lie in the range of `P_tent`
@@ -353,6 +353,125 @@ theorem rbm_depends_on_prior_content :
       rigidBodyModes exSqrt 2 exCoo (Array.replicate 12 7) false = .ok (nm, B') ∧
       entry 2 4 false B 0 1 = 0 ∧ entry 2 4 false B' 0 1 = 7 := by
   refine ⟨3, exB, _, by decide +kernel, rfl, by decide +kernel, by decide +kernel⟩
+
+/-! ## how far from orthogonal: the first rotation column -/
+
+theorem raw_translation (sqrt : K → K) (ndim : Nat) (hd : ndim = 2 ∨ ndim = 3) (coo : Array K) (tr : Bool) (j k : Nat)
+    (hj : j < coo.size) (hk : k < ndim) :
+    entry ndim coo.size tr (rawModes sqrt ndim coo #[] tr) j k
+      = if k = j % ndim then 1 / sqrt (coo.size : K) else 0 := by
+  rcases hd with rfl | rfl
+  · rw [rbm_span_2d sqrt coo tr j k hj (by omega)]
+    unfold mode2
+    rw [if_neg (by omega)]
+  · rw [rbm_span_3d sqrt coo tr j k hj (by omega)]
+    unfold mode3
+    rw [if_pos hk]
+
+/-- Gram matrix of the translation columns: `δ_{kk'}/ndim` -/
+theorem translation_gram (sqrt : K → K) (ndim : Nat) (hd : ndim = 2 ∨ ndim = 3) (coo : Array K) (hdiv : coo.size % ndim = 0)
+    (tr : Bool) (hn : sqrt (coo.size : K) * sqrt (coo.size : K) = (coo.size : K)) (hn0 : (coo.size : K) ≠ 0)
+    (k k' : Nat) (hk : k < ndim) (hk' : k' < ndim) :
+    ∑ j ∈ range coo.size, entry ndim coo.size tr (rawModes sqrt ndim coo #[] tr) j k
+        * entry ndim coo.size tr (rawModes sqrt ndim coo #[] tr) j k'
+      = if k = k' then 1 / (ndim : K) else 0 := by
+  have e : ∀ j ∈ range coo.size, entry ndim coo.size tr (rawModes sqrt ndim coo #[] tr) j k
+        * entry ndim coo.size tr (rawModes sqrt ndim coo #[] tr) j k'
+      = if k = k' then (if k = j % ndim then (1 / sqrt (coo.size : K)) * (1 / sqrt (coo.size : K)) else 0) else 0 := by
+    intro j hj
+    have hj' := Finset.mem_range.mp hj
+    rw [raw_translation sqrt ndim hd coo tr j k hj' hk, raw_translation sqrt ndim hd coo tr j k' hj' hk']
+    by_cases hkk : k = k'
+    · subst hkk; rw [if_pos rfl]; split <;> simp
+    · rw [if_neg hkk]
+      by_cases h1 : k = j % ndim
+      · rw [if_pos h1, if_neg (by omega), mul_zero]
+      · rw [if_neg h1, zero_mul]
+  rw [Finset.sum_congr rfl e]
+  by_cases hkk : k = k'
+  · simp only [hkk, if_true]
+    obtain ⟨m, hm⟩ : ∃ m, coo.size = ndim * m := ⟨coo.size / ndim, by
+      have := Nat.div_add_mod coo.size ndim; rw [hdiv] at this; omega⟩
+    rw [hm] at hn hn0 ⊢
+    rw [sum_component ndim hd k' hk' _ m]
+    have hc : ((ndim * m : Nat) : K) = (ndim : K) * (m : K) := by push_cast; ring
+    rw [hc] at hn hn0
+    have hnd : (ndim : K) ≠ 0 := fun h0 => hn0 (by rw [h0, zero_mul])
+    have hm0 : (m : K) ≠ 0 := fun h0 => hn0 (by rw [h0, mul_zero])
+    rw [hc]
+    have : (1 / sqrt ((ndim : K) * (m : K))) * (1 / sqrt ((ndim : K) * (m : K))) = 1 / ((ndim : K) * (m : K)) := by
+      rw [div_mul_div_comm, one_mul, hn]
+    rw [this]
+    field_simp
+  · simp [hkk]
+
+/-- **First rotation column against the translations** (`rbm_first_rotation_gram`): on a fresh vector, with `sqrt` exact at
+`n ≠ 0`, the first iteration of the "orthonormalisation" (column `ndim`, the only one in 2D) leaves
+`⟨B_ndim, B_k⟩ · s = (1 − 1/ndim) · ⟨T_k, R⟩` for every translation `k`, where `R` is the raw rotation column, `T_k` the
+translation column and `s` the divisor — it removes only the fraction `1/ndim` of the component along `T_k`.  The inner
+product vanishes only if the raw rotation was orthogonal to the translation to begin with (e.g. centroid at the origin). -/
+theorem rbm_first_rotation_gram (sqrt : K → K) (ndim : Nat) (hd : ndim = 2 ∨ ndim = 3) (coo : Array K)
+    (hdiv : coo.size % ndim = 0) (tr : Bool)
+    (hn : sqrt (coo.size : K) * sqrt (coo.size : K) = (coo.size : K)) (hn0 : (coo.size : K) ≠ 0)
+    (hs : (gsStep sqrt (if tr then 1 else nmodes ndim) (if tr then coo.size else 1) coo.size ndim
+      (rawModes sqrt ndim coo #[] tr)).2 ≠ 0)
+    (k : Nat) (hk : k < ndim) :
+    (∑ j ∈ range coo.size,
+        entry ndim coo.size tr (gsStep sqrt (if tr then 1 else nmodes ndim) (if tr then coo.size else 1) coo.size ndim
+          (rawModes sqrt ndim coo #[] tr)).1 j k
+      * entry ndim coo.size tr (gsStep sqrt (if tr then 1 else nmodes ndim) (if tr then coo.size else 1) coo.size ndim
+          (rawModes sqrt ndim coo #[] tr)).1 j ndim)
+      * (gsStep sqrt (if tr then 1 else nmodes ndim) (if tr then coo.size else 1) coo.size ndim
+          (rawModes sqrt ndim coo #[] tr)).2
+    = (1 - 1 / (ndim : K)) * ∑ j ∈ range coo.size, entry ndim coo.size tr (rawModes sqrt ndim coo #[] tr) j k
+        * entry ndim coo.size tr (rawModes sqrt ndim coo #[] tr) j ndim := by
+  have L := lay_of tr coo.size (nmodes ndim)
+  have hnm := lt_nmodes hd
+  have sp := gsStep_spec sqrt L (rawModes sqrt ndim coo #[] tr) (size_rawModes sqrt ndim hd coo #[] tr) hnm (nmodes_le ndim)
+  -- the sum against the translation column, through `colDot_gsW`
+  have key := colDot_gsW (s1 := if tr then 1 else nmodes ndim) (s2 := if tr then coo.size else 1) (n := coo.size)
+    (fun j => entry ndim coo.size tr (rawModes sqrt ndim coo #[] tr) j k) (rawModes sqrt ndim coo #[] tr) ndim
+  have hcd : ∀ k', k' < ndim →
+      colDot (if tr then 1 else nmodes ndim) (if tr then coo.size else 1) coo.size
+        (fun j => entry ndim coo.size tr (rawModes sqrt ndim coo #[] tr) j k) (rawModes sqrt ndim coo #[] tr) k'
+      = if k = k' then 1 / (ndim : K) else 0 := by
+    intro k' hk'
+    exact translation_gram sqrt ndim hd coo hdiv tr hn hn0 k k' hk hk'
+  have hsum : ∑ k' ∈ range ndim,
+      (∑ j' ∈ range coo.size, cell (if tr then 1 else nmodes ndim) (if tr then coo.size else 1) (rawModes sqrt ndim coo #[] tr) j' k'
+        * cell (if tr then 1 else nmodes ndim) (if tr then coo.size else 1) (rawModes sqrt ndim coo #[] tr) j' ndim)
+      * colDot (if tr then 1 else nmodes ndim) (if tr then coo.size else 1) coo.size
+        (fun j => entry ndim coo.size tr (rawModes sqrt ndim coo #[] tr) j k) (rawModes sqrt ndim coo #[] tr) k'
+      = (∑ j' ∈ range coo.size, cell (if tr then 1 else nmodes ndim) (if tr then coo.size else 1) (rawModes sqrt ndim coo #[] tr) j' k
+        * cell (if tr then 1 else nmodes ndim) (if tr then coo.size else 1) (rawModes sqrt ndim coo #[] tr) j' ndim) * (1 / (ndim : K)) := by
+    rw [Finset.sum_eq_single k]
+    · rw [hcd k hk, if_pos (show k = k from rfl)]
+    · intro k' hk' hne
+      rw [hcd k' (Finset.mem_range.mp hk'), if_neg (show ¬ k = k' from fun h => hne h.symm), mul_zero]
+    · intro h; exact absurd (Finset.mem_range.mpr hk) h
+  rw [hsum] at key
+  -- the left-hand side in terms of `gsW`
+  have e : ∀ j ∈ range coo.size,
+      entry ndim coo.size tr (gsStep sqrt (if tr then 1 else nmodes ndim) (if tr then coo.size else 1) coo.size ndim
+          (rawModes sqrt ndim coo #[] tr)).1 j k
+      * entry ndim coo.size tr (gsStep sqrt (if tr then 1 else nmodes ndim) (if tr then coo.size else 1) coo.size ndim
+          (rawModes sqrt ndim coo #[] tr)).1 j ndim
+      = (entry ndim coo.size tr (rawModes sqrt ndim coo #[] tr) j k
+          * gsW (if tr then 1 else nmodes ndim) (if tr then coo.size else 1) coo.size ndim (rawModes sqrt ndim coo #[] tr) j)
+        * ((gsStep sqrt (if tr then 1 else nmodes ndim) (if tr then coo.size else 1) coo.size ndim
+          (rawModes sqrt ndim coo #[] tr)).2)⁻¹ := by
+    intro j hj
+    have hj' := Finset.mem_range.mp hj
+    unfold entry
+    rw [sp.2.2 j k hj' (by omega), if_neg (by omega), sp.2.2 j ndim hj' hnm, if_pos rfl, div_eq_mul_inv, mul_assoc]
+  rw [Finset.sum_congr rfl e, ← Finset.sum_mul, mul_assoc, inv_mul_cancel₀ hs, mul_one, key]
+  unfold colDot entry
+  ring
+
+example : (∑ j ∈ range 4, entry 2 4 false exB j 1 * entry 2 4 false exB j 2) * (5 / 2 : Rat)
+    = (1 - 1 / 2) * ∑ j ∈ range 4, entry 2 4 false (rawModes exSqrt 2 exCoo #[] false) j 1
+        * entry 2 4 false (rawModes exSqrt 2 exCoo #[] false) j 2 := by decide +kernel
+example : (gsStep exSqrt 3 1 4 2 (rawModes exSqrt 2 exCoo #[] false)).2 ≠ 0 := by decide +kernel
 
 /-! ## composition with the tentative prolongation -/
 
